@@ -173,8 +173,8 @@ func main() {
 	for gi, g := range geos {
 		for oi, o := range opts {
 			b := b1
-			if r.Thorough() && (gi > 1 || oi > 0) {
-				b = 1 // the deepest bound only on the two base geometries with the base options
+			if r.Thorough() && (gi > 0 || oi > 0) {
+				b = 1 // the deepest bound only on the single-wavefront geometry with the base options
 			}
 			add(nil, g, o, b)
 			for _, n := range t.Names {
